@@ -36,6 +36,13 @@ YUV_QUICK_SIZES = {(1, 1), (2, 1), (3, 2), (4, 2), (5, 3), (7, 3), (9, 2), (6, 1
 VERUS_WITNESS = {}
 
 
+def H(mod):
+    return dict(crate="h263", prefix=mod + "::verif_hook::proofs", replay_mod=mod + "::verif_hook::replay")
+
+
+TYPES, MVD, RLE, MBK = H("types"), H("decoder::cpu::mvd_pred"), H("decoder::cpu::rle"), H("parser::macroblock")
+
+
 def kani_harnesses(prop, tier):
     hs = []
     if prop == "C07":
@@ -45,6 +52,31 @@ def kani_harnesses(prop, tier):
             hs.append(dict(YUV, name="within1_r", nbytes=3, what="oracle lemma on the Rust oracle: |R_fixed - clamp(real)| <= 1"))
             hs.append(dict(YUV, name="within1_b", nbytes=3, what="oracle lemma on the Rust oracle: |B_fixed - clamp(real)| <= 1"))
             hs.append(dict(YUV, name="monotone", nbytes=3, timeout=1200, what="oracle lemma on the Rust oracle: monotone in Y, Cb, Cr"))
+    if prop == "C11":
+        hs.append(dict(RLE, name="single_inter", nbytes=4, timeout=900, what="inverse_rle, one event, no INTRADC: every quantizer 1..=31 x level -1023..=1023 (non-zero) x run 0..=63: coefficient at its Figure-14 position == sat(sign(L)(Q(2|L|+1) - [Q even])), all others 0, sparsity class right"))
+        hs.append(dict(RLE, name="single_intra", nbytes=5, timeout=900, what="same with an INTRADC code (all valid codes): DC == Table 15 level, event lands one position later"))
+        hs.append(dict(RLE, name="zigzag", nbytes=0, what="DEZIGZAG_MAPPING == Figure 14/H.263 (64 entries)"))
+        hs.append(dict(TYPES, name="intradc", nbytes=1, what="IntraDc::from_u8 / into_level == Table 15 for all 256 codes (0 and 128 rejected, 255 -> 1024, else 8*code)"))
+    if prop == "C12":
+        for n, w in [("lerp_params", "HalfPel::into_lerp_parameters == (floor(v/2), v odd) for every i16"),
+                     ("invert_range", "HalfPel::invert == v -/+ 64; is_mv_within_range == (-range <= v < range), all i16"),
+                     ("chroma_round", "HalfPel::average_sum_of_mvs == Table 16 (sixteenth-position rounding) applied to sum/8, every i16 sum"),
+                     ("median", "HalfPel::median_of == the middle value, all i16 triples"),
+                     ("add", "HalfPel / MotionVector addition exact for operands within +-8192"),
+                     ("mv_wrappers", "MotionVector median / chroma rounding / lerp split / tuple conversions are component-wise")]:
+            hs.append(dict(TYPES, name=n, nbytes=12, what=w))
+        hs.append(dict(MVD, name="halfpel_base", nbytes=12, what="halfpel_decode without UMV: all 64x64 (predictor, differential) pairs, either component, any other option bits, with/without PLUSPTYPE, any UUI: result == (p + d) mod 64 in [-32,31]"))
+        hs.append(dict(MVD, name="mv_decode_base", nbytes=8, what="mv_decode == halfpel_decode per component"))
+        hs.append(dict(MBK, name="mvd_table", nbytes=0, timeout=900, what="MVD_TABLE == Table 14/H.263: all 64 code words walk to their vector difference, HalfPel::from(f32) exact, exactly 64 value leaves"))
+        for line in open(os.path.join(vlib.VERIF, "hooks/h263/decoder/cpu/mvd_pred_shapes.rs")):
+            m = re.match(r"predict!\((\w+), (\d+), (\d+)\);", line.strip())
+            if m:
+                cols, cur = int(m.group(2)), int(m.group(3))
+                if tier == "quick" and cols == 4 and cur < 4:
+                    pass
+                hs.append(dict(MVD, name=m.group(1), nbytes=8 * (cur * 4 + 3) , timeout=900,
+                               what="predict_candidate, %d macroblocks per line, macroblock #%d (row %d, col %d), blocks 0..3, all stored vectors symbolic: == median of the H.263 6.1.1 / Figure F.2 candidates with the edge rules" % (cols, cur, cur // cols, cur % cols),
+                               bound="grid %d columns, macroblock %d" % (cols, cur)))
     if prop == "C08":
         hs.append(dict(YUV, name="empty", nbytes=0, what="yuv420_to_rgba(&[],&[],&[],0) returns an empty vector without panic"))
         for name, w, h in shapes("hooks/yuv/shapes.rs", "geom"):
@@ -89,6 +121,23 @@ PROPS["C08"] = dict(
     level_text="BOUNDED proof: the contract of yuv420_to_rgba (length 4*w*h; pixel (x,y) == F(Y[x,y],Cb[x/2,y/2],Cr[x/2,y/2]) for every pixel; empty in => empty out; no panic) is discharged by CBMC per concrete (w,h) with all plane contents symbolic, against the pixel kernel's contract in tagging form. quick: 8 sizes covering every residue of w mod 4 and h mod 2; thorough: every (w,h) in 1..=18 x 1..=6. Sizes beyond are not proved",
     level_note="trusted: Kani/CBMC; A-PARAM the 4-pixel kernel is replaced by its contract stub F(y,cb,cr)=[y,cb,cr,255] (C07 proves the kernel itself); bytemuck::cast_slice (safe API of a dependency) is compiled as is",
     assumptions=["A-PARAM: pixel kernel abstracted by its contract (tagging form)", "bounded in picture size"],
+)
+PROPS["C11"] = dict(
+    level="proof",
+    engine="kani+verus",
+    verus=[dict(unit="state")],
+    functions=["h263::decoder::cpu::rle::inverse_rle", "h263::types::IntraDc::{from_u8,into_level}", "h263::decoder::state::H263State::decode_next_picture (quantizer update)"],
+    level_text="complete proofs over the finite domains: inverse_rle's single-event contract is discharged by CBMC for every quantizer 1..=31 x level -1023..=1023 x run 0..=63 with and without INTRADC (one symbolic query each), the INTRADC map for all 256 codes, the zig-zag table against Figure 14; the quantizer clamp after DQUANT is an assertion in the Verus proof of the real decode loop (all histories); escape widths are part of the block parser contract",
+    level_note="trusted: Kani/CBMC, Verus/z3; spec/h263_tables.rs typed from H.263 6.2 / Table 15 / Figure 14; the decode-loop proof assumes the parser contracts (shared_contracts.vrs) proved in the parser units",
+    assumptions=["oracle tables typed from the Recommendation", "parser contracts assumed by the state unit (see evidence.trusted_base)"],
+)
+PROPS["C12"] = dict(
+    level="proof",
+    engine="kani",
+    functions=["h263::types::HalfPel::{into_lerp_parameters,invert,is_mv_within_range,average_sum_of_mvs,median_of,add}", "h263::decoder::cpu::mvd_pred::{halfpel_decode,mv_decode,predict_candidate}", "h263::parser::macroblock::MVD_TABLE"],
+    level_text="complete proofs over finite domains (all i16 / all 64x64 pairs / all i16 triples / all 64 code words) for the loop-free vector kernels and the MVD table; candidate selection is proved per concrete neighbour configuration (1..=4 macroblocks per line, rows 0..2, every column incl. first/last, block index 0..3) with all stored vectors symbolic - BOUNDED in grid width (<= 4 columns), which covers all 3x3 neighbour-availability classes and single-column pictures",
+    level_note="trusted: Kani/CBMC; oracles in spec/h263_tables.rs typed from H.263 6.1.1, Table 14, Table 16; candidate selection beyond 4 columns not proved (the function only looks at col == 0, col == last, row == 0)",
+    assumptions=["oracle tables typed from the Recommendation", "predict_candidate proved on grids up to 4 columns x 3 rows"],
 )
 PROPS["C09"] = dict(
     level="proof",
